@@ -35,7 +35,8 @@ VARIABLES
   pc,       \* [Procs -> [pt, f, cf, k]]
   retries,  \* [Procs -> Nat]
   outcome,  \* [Procs -> STRING]  "run" | "ok" | "timeout" | "notexist" | "exists" | "io" | "crashed"
-  data,     \* [Files -> [exists, ver]]   the table file; ver = number of committed updates it contains
+  data,     \* [Files -> [exists, ver, empty]]  the table file; ver = number of committed updates it contains;
+            \*                             empty = it has no records (made by CREATE TABLE): an UPDATE of it changes nothing
   lockf,    \* [Files -> Procs \cup {NoProc}]  creator of the existing ._f.lock, NoProc = absent
   rlockf,   \* [Files -> SUBSET Procs]         creators of existing ._f.*.rlock files
   tempf,    \* [Files -> Procs \cup {NoProc}]  creator of the existing ._f.temp
@@ -96,6 +97,15 @@ Wait(p, f, k) == Goto(p, "wait.retry", f, "", k)
 (* transaction is served from the cache (no file access); otherwise the     *)
 (* path is searched first (SearchFilePath: "file does not exist").          *)
 
+\* COMMIT writes the created tables, then the held tables that were changed; a held table without records was
+\* not changed by its UPDATE (no rows affected): it is only released, after the others (ReleaseResources)
+Dirty(hs) == {f \in hs : ~data[f].empty}
+CommitNext(p, hs, mk) ==
+  IF mk # {} THEN \E f \in mk : Goto(p, "commit.data_fd", f, "", "c")
+  ELSE IF Dirty(hs) # {} THEN \E f \in Dirty(hs) : Goto(p, "commit.data_fd", f, "", "c")
+  ELSE IF hs # {} THEN \E f \in hs : Goto(p, "close.data_fd", f, "", "cc")
+  ELSE OpDone(p, hs, mk)
+
 StmtBegin(p) == LET o == Op(p)  hs == held[p]  mk == made[p] IN
   /\ pc[p].pt = "stmt.begin"
   /\ CASE o.op \in {"read", "update"} ->
@@ -104,10 +114,7 @@ StmtBegin(p) == LET o == Op(p)  hs == held[p]  mk == made[p] IN
             ELSE Goto(p, IF o.op = "read" THEN "read.stat" ELSE "update.stat", o.f, "", "")
        [] o.op = "create" ->
             IF o.f \in hs \cup mk THEN OpFail(p, "exists") ELSE Goto(p, "create.stat", o.f, "", "")
-       [] o.op = "commit" ->
-            IF mk # {} THEN \E f \in mk : Goto(p, "commit.data_fd", f, "", "c")
-            ELSE IF hs # {} THEN \E f \in hs : Goto(p, "commit.data_fd", f, "", "c")
-            ELSE OpDone(p, hs, mk)
+       [] o.op = "commit" -> CommitNext(p, hs, mk)
        [] o.op = "rollback" ->
             IF hs \cup mk = {} THEN OpDone(p, hs, mk)
             ELSE \E f \in hs \cup mk : Goto(p, "close.data_fd", f, "", "rb")
@@ -221,7 +228,7 @@ CreateFile(p) == LET f == pc[p].f IN
        THEN /\ IF RemoveOnFailedCreate THEN Goto(p, "cwe.remove_created", f, "", "io")
                                        ELSE Goto(p, "cf.close_fd", f, "lock", "cwe.io")
             /\ UNCHANGED <<data, flockEx, made>>
-       ELSE /\ data' = [data EXCEPT ![f] = [exists |-> TRUE, ver |-> 0]]
+       ELSE /\ data' = [data EXCEPT ![f] = [exists |-> TRUE, ver |-> 0, empty |-> TRUE]]
             /\ flockEx' = [flockEx EXCEPT ![f] = p]
             /\ made' = [made EXCEPT ![p] = @ \cup {f}]
             /\ OpDone(p, held[p], made[p] \cup {f})
@@ -282,7 +289,7 @@ AfterCf(p, f, cf, k) ==
     [] k = "cwe.io"         -> Goto(p, "cwe.done", f, "", "io")
     [] k = "cwe.timeout"    -> Goto(p, "cwe.done", f, "", "timeout")
     \* Handler.close(): temp, then lock, then rlock
-    [] k \in {"read", "rb", "end"} ->
+    [] k \in {"read", "rb", "end", "cc"} ->
          IF cf = "temp" THEN Goto(p, "cf.close_fd", f, "lock", k) ELSE Goto(p, "close.done", f, "", k)
     \* Handler.commit(): lock only
     [] k = "c" -> Goto(p, "commit.done", f, "", k)
@@ -321,6 +328,7 @@ CloseDone(p) == LET f == pc[p].f  k == pc[p].k
   /\ made' = [made EXCEPT ![p] = mk]
   /\ loaded' = [loaded EXCEPT ![p][f] = -1]
   /\ CASE k = "read" -> OpDone(p, held[p], made[p])
+       [] k = "cc"   -> CommitNext(p, hs, mk)
        [] k = "rb"   -> IF hs \cup mk = {}
                           THEN OpDone(p, {}, {})
                           ELSE \E g \in hs \cup mk : Goto(p, "close.data_fd", g, "", "rb")
@@ -354,7 +362,7 @@ CommitRemoveOrig(p) == LET f == pc[p].f IN
 
 CommitRename(p) == LET f == pc[p].f IN
   /\ pc[p].pt = "commit.rename"
-  /\ data' = [data EXCEPT ![f] = [exists |-> TRUE, ver |-> loaded[p][f] + 1]]
+  /\ data' = [data EXCEPT ![f] = [exists |-> TRUE, ver |-> loaded[p][f] + 1, empty |-> FALSE]]
   /\ tempf' = [tempf EXCEPT ![f] = NoProc]
   /\ commits' = [commits EXCEPT ![f] = @ + 1]
   /\ Goto(p, "commit.swapped", f, "", "c")
@@ -372,9 +380,7 @@ CommitDone(p) == LET f == pc[p].f
   /\ held' = [held EXCEPT ![p] = hs]
   /\ made' = [made EXCEPT ![p] = mk]
   /\ loaded' = [loaded EXCEPT ![p][f] = -1]
-  /\ IF hs \cup mk = {}
-       THEN OpDone(p, {}, {})
-       ELSE \E g \in (IF mk # {} THEN mk ELSE hs) : Goto(p, "commit.data_fd", g, "", "c")
+  /\ CommitNext(p, hs, mk)
   /\ UNCHANGED <<fs, ghost>>
 
 -----------------------------------------------------------------------------
@@ -414,7 +420,7 @@ InitWith(pr) ==
   /\ pc = [p \in Procs |-> CHOOSE n \in StartOf(p, 1, {}, {}) : TRUE]
   /\ retries = [p \in Procs |-> 0]
   /\ outcome = [p \in Procs |-> "run"]
-  /\ data = [f \in Files |-> [exists |-> f \in InitExists, ver |-> 0]]
+  /\ data = [f \in Files |-> [exists |-> f \in InitExists, ver |-> 0, empty |-> FALSE]]
   /\ lockf = [f \in Files |-> NoProc]
   /\ rlockf = [f \in Files |-> {}]
   /\ tempf = [f \in Files |-> NoProc]
